@@ -96,7 +96,9 @@ func runC12(c *eng.Ctx) {
 			}
 			n++
 			fs := facts.At(r)
-			isNF := facts.Find(fs, "true", func(d string, _ ssa.Value) bool { return strings.Contains(d, "Contains(errMsg") && strings.Contains(d, "not found") }, nil)
+			isNF := facts.Find(fs, "true", func(d string, _ ssa.Value) bool {
+				return strings.Contains(d, "Contains(errMsg") && strings.Contains(d, "not found")
+			}, nil)
 			// the value tested > 0 is the decremented tolerance counter
 			tolPos := facts.Find(fs, "lt", eng.DescIs("0"), func(d string, v ssa.Value) bool {
 				return eng.DependsOnField(v, btcT+".tolerantNotFounds")
